@@ -616,7 +616,7 @@ def _find_chunk(arg):
     """Run one chunk of jobs on the real library and check the outputs; first violation of `prop` or None."""
     prop, chunk = arg
     try:
-        results = run_jobs(chunk, timeout=300)
+        results = run_jobs(WARM + chunk, timeout=300)[len(WARM):]
     except subprocess.TimeoutExpired:
         # a generation call that does not return (C09: "terminates"): find the job, one process per job
         results = []
@@ -629,8 +629,23 @@ def _find_chunk(arg):
     for job, line in results:
         for e in findings(job, line):
             if e.startswith(prop):
+                # does the job fail on its own (fresh process), or only after what the process generated before it?
+                try:
+                    alone = run_jobs([job], timeout=60)
+                    if not any(x.startswith(prop) for x in findings(*alone[0])):
+                        e += ' [only in a process that has generated other pickles before: feed the replay tool the lines %r and then this job]' % (WARM,)
+                except Exception:  # noqa: BLE001
+                    pass
                 return job, line[:20000], e
     return None
+
+
+# Every chunk of jobs runs in a process that has ALREADY produced two pickles with other configurations (all opt-in flags and
+# unsafe mutators on, protocol 5; then a plain protocol-0 one).  Each property is claimed for a generator wherever it runs,
+# also next to other generators in the same process: anything remembered process-wide (a cached vocabulary, cached guard
+# verdicts) shows up as a byte-level violation of the job that follows.  On a tree without such state this changes nothing.
+WARM = ['P=5 seed=900001 min=40 max=120 ext=1 buffer=1 unsafe=1 mut=typeconfusion,memoindex rate=0.5',
+        'P=0 seed=900002 min=40 max=120']
 
 
 if __name__ == '__main__':
